@@ -79,7 +79,10 @@ theorem step_frozen {P : Params} {s s' : State} (h1 : Inv1 P s) (hs : Step P s s
   | endErrMark i e ow hp =>
     have := key i (by rw [hp]; simp)
     exact ⟨by simp [updF, this], rfl, hj⟩
-  | tailTs i k st hp => exact ⟨rfl, rfl, hj⟩
+  | tailTs i k st hp hk => exact ⟨rfl, rfl, hj⟩
+  | tailSkip i k st hp hk =>
+    have := key i (by rw [hp]; simp)
+    exact ⟨rfl, by simp [updF, this], hj⟩
   | tailLts i k ts st hp =>
     have := key i (by rw [hp]; simp)
     exact ⟨rfl, by simp [updF, this], hj⟩
@@ -214,7 +217,8 @@ theorem inv5_step {P : Params} {s s' : State} (h1 : Inv1 P s) (h2 : Inv2 s) (h3 
   | markValSome i l todo en hp hl hm => exact ⟨hold, h.outcomes⟩
   | markValNone i l todo hp hl hm => exact ⟨hold, h.outcomes⟩
   | endErrMark i e ow hp => exact ⟨hold, h.outcomes⟩
-  | tailTs i k st hp => exact ⟨hold, h.outcomes⟩
+  | tailTs i k st hp hk => exact ⟨hold, h.outcomes⟩
+  | tailSkip i k st hp hk => exact ⟨hold, h.outcomes⟩
   | tailLts i k ts st hp => exact ⟨hold, h.outcomes⟩
   | claimVal i hp hst => exact ⟨hold, h.outcomes⟩
   | valTs i r hp hr => exact ⟨hold, h.outcomes⟩
